@@ -353,6 +353,44 @@ func scenarioC10(r *Run) {
 			r.Fail("nil-vs-empty-external-differ/"+form, "countersignature made with %s external does not verify with the other spelling: %v", extClass(external), e)
 		}
 	}
+	// indifference to the parent's unprotected headers, in memory: whatever
+	// sits in the parent's unprotected bucket at that moment (entries the
+	// encoder would refuse, a not-yet-signed countersignature holder) must not
+	// matter, because that bucket is not covered
+	if _, ph := libParentAt(m1, ms, path); ph != nil && constructed {
+		saved := ph.Unprotected
+		savedRaw := ph.RawUnprotected
+		junk := cose.UnprotectedHeader{}
+		for k, v := range saved {
+			junk[k] = v
+		}
+		switch t.Choose(4, "c10.junk") {
+		case 0:
+			junk[cose.HeaderLabelKeyID] = "a text kid is not encodable"
+		case 1:
+			junk[cose.HeaderLabelCritical] = []any{int64(4)}
+		case 2:
+			junk[cose.HeaderLabelCounterSignatureV2] = cose.NewCountersignature() // holder attached before it is signed
+		default:
+			junk[cose.HeaderLabelCounterSignature0] = 42
+		}
+		ph.Unprotected, ph.RawUnprotected = junk, nil
+		r.Check()
+		e := made.libVerify(r, verifier, arg, external)
+		var e2 error
+		if e == nil {
+			cs2 := cose.NewCountersignature()
+			a := key.Alg
+			cs2.Headers.Protected[cose.HeaderLabelAlgorithm] = cose.Algorithm(a)
+			r.Lib(func() { e2 = cs2.Sign(ent, inner, arg, external) })
+		}
+		ph.Unprotected, ph.RawUnprotected = saved, savedRaw
+		if e != nil || e2 != nil {
+			r.Fail("countersignature-depends-on-parent-unprotected/"+pkName+"/"+form, "with an unencodable entry in the parent's UNPROTECTED bucket: Verify of an existing countersignature %v, making a new one %v", e, e2)
+			return
+		}
+		r.Probe("parent-unprotected-junk-ignored")
+	}
 	// binding 2: the parent crosses a faulty channel
 	for round, rounds := 0, 1+t.Choose(3, "c10.rounds"); round < rounds; round++ {
 		c10Mutation(r, t, w, spec, path, made, verifier, ent)
